@@ -43,6 +43,10 @@ type Prog struct {
 	fieldStores map[*types.Var][]ssa.Value
 
 	LoadS, SSAS, CGS float64
+	bce              map[string]bool
+	named            []*types.Named
+	Unresolved       []string
+	addrTaken        map[*ssa.Function]bool
 	funcDecls        map[*types.Func]*ast.FuncDecl
 	declPkg          map[*types.Func]*packages.Package
 }
